@@ -1,5 +1,5 @@
 import ESRVerif.Model.Stages
-import ESRVerif.Generated.Codelen
+import ESRVerif.Generated.FisherAlias
 /-!
 The per-function loop of `test_all_Fisher.main` (lines 274-304) WITH the in-place write of `convert_params` (C07c).
 
@@ -8,9 +8,9 @@ The per-function loop of `test_all_Fisher.main` (lines 274-304) WITH the in-plac
 likelihood.  So a call of the routine is not a pure function of the row: it returns its result (or raises) AND leaves the row's slot of the
 stage-1 table changed (`Attempt.slot`).  Two readers could see that:
 
-* a LATER ROW — if the written array were not the row's own slot (regenerated: `ESR.Gen.Codelen.fisherWritesRowLocal`,
+* a LATER ROW — if the written array were not the row's own slot (regenerated: `ESR.Gen.FisherAlias.fisherWritesRowLocal`,
   `slotReadByOtherRows`); `fisherLoop false` threads the table through the iterations with an arbitrary `spill`;
-* the RETRY of the same row inside `except NameError:` (line 295), which is handed the SAME object (`ESR.Gen.Codelen.retryReadsSlot`): the second
+* the RETRY of the same row inside `except NameError:` (line 295), which is handed the SAME object (`ESR.Gen.FisherAlias.retryReadsSlot`): the second
   attempt starts from the vector as the first attempt left it.  This is what the code does today and it is modelled as such (`rowStep`).
 
 `Model/Stages.fisherRow` is the same iteration over abstract outcomes `o1 o2`; `o1Of`/`o2Of` say which outcomes the loop as written feeds it.
@@ -74,8 +74,8 @@ def fisherLoop (rowLocal : Bool) (spill : List (α × List α) → Nat → List 
 def fisherStage (spill : List (α × List α) → Nat → List α → List (α × List α))
     (nan zero : α) (isBad : α → Bool) (mp : Nat) (tryInt : Bool) (r1 r2 : Routine α φ)
     (T : List (α × List α)) (fs : List φ) : List (Conv α) :=
-  fisherLoop (ESR.Gen.Codelen.fisherWritesRowLocal && !ESR.Gen.Codelen.slotReadByOtherRows) spill
-    nan zero isBad mp tryInt ESR.Gen.Codelen.retryReadsSlot r1 r2 0 T fs
+  fisherLoop (ESR.Gen.FisherAlias.fisherWritesRowLocal && !ESR.Gen.FisherAlias.slotReadByOtherRows) spill
+    nan zero isBad mp tryInt ESR.Gen.FisherAlias.retryReadsSlot r1 r2 0 T fs
 
 /-- a write that is NOT row-local, for the `…_needed` example: the snapped vector lands in the NEXT row of the table (what a hoisted
 buffer / an off-by-one view would do) -/
